@@ -13,6 +13,7 @@ mkdir -p $D
 cp $W/SEED/patch.diff $W/SEED/meta.json $D/ 2>/dev/null
 cp $W/SEED/*_test.go $W/SEED/*.txt $D/ 2>/dev/null
 cd $W || exit 2
+if [ -z "${SEEDCHECK_SKIP_CONFIRM:-}" ]; then
 files=$(git diff --name-only -- . ':!SEED' | grep -v seeded_demo_test.go | tr '\n' ' ')
 demo=$(python3 -c "import json;print(json.load(open('$D/meta.json'))['demo_cmd'])" 2>/dev/null)
 echo "== files: $files"
@@ -26,6 +27,8 @@ echo "== demo without the change (must PASS):"
 git apply -R $D/patch.diff   # (not git stash: the stash is shared by all worktrees of a repository)
 go test -vet=off -count=1 -run 'TestSeededDemo' ./$pkg/ 2>&1 | tail -2
 git apply $D/patch.diff
+fi
+[ -n "${SEEDCHECK_CONFIRM_ONLY:-}" ] && { echo "== confirm only"; exit 0; }
 echo "== applying to /repo and running checks: $*"
 cd /repo && git apply $D/patch.diff || { echo "patch does not apply to /repo"; exit 3; }
 for c in "$@"; do (cd /verif && timeout 900 ./check $c 2>&1 | grep -E "VIOLATION|^OK|KNOWN" | head -3); done
